@@ -55,5 +55,5 @@ grep -E "^(FAIL|---)" /tmp/seedv/$name.suite.log | grep -v TestPullingEntityCach
 place_demo >/dev/null
 echo "== demo WITH patch"; timeout 900 $DEMO > /tmp/seedv/$name.with.log 2>&1; r1=$?; failed /tmp/seedv/$name.with.log && r1=1; tail -2 /tmp/seedv/$name.with.log; echo "exit=$r1"
 echo "RESULT name=$name demo_without=$r0 build=$rb suite=$rs demo_with=$r1"
-[ $r0 -eq 0 ] && [ $rb -eq 0 ] && [ $r1 -ne 0 ] && { [ $rs -eq 0 ] || ! grep -E "^(FAIL|--- FAIL)" /tmp/seedv/$name.suite.log | grep -qv "TestPullingEntityCache\|chaincore/node"; } && { echo "SEED CONFIRMED"; exit 0; }
+[ $r0 -eq 0 ] && [ $rb -eq 0 ] && [ $r1 -ne 0 ] && { [ $rs -eq 0 ] || ! grep -E "^(FAIL[[:space:]]+[^[:space:]]|--- FAIL)" /tmp/seedv/$name.suite.log | grep -qv "TestPullingEntityCache\|chaincore/node"; } && { echo "SEED CONFIRMED"; exit 0; }
 echo "SEED NOT CONFIRMED"; exit 1
